@@ -61,7 +61,7 @@ theorem lto_window_shape (cfg : Cfg) (L : Libc) (w : World) (pil : Nat) (start e
     ((validPilLtoToTime cfg L w (pil &&& mkPil 15 31 0 0) start east).1 = .invalidPil ∧ b = TIME_MIN ∧ e = TIME_MAX)
     ∨ ∃ t, (validPilLtoToTime cfg L w (pil &&& mkPil 15 31 0 0) start east).1 = .ok t
         ∧ b = t - (if pilHour pil < 4 then 4 * 60 * 60 else 0) ∧ e = t + 28 * 60 * 60
-        ∧ t ≤ TIME_MAX - 28 * 60 * 60 ∧ (pilHour pil < 4 → guardWin cfg t = false) := by
+        ∧ t ≤ TIME_MAX - 28 * 60 * 60 ∧ (pilHour pil < 4 → guardWin cfg t = false) ∧ t ≠ -1 := by
   unfold vbiPilLtoValidityWindow at h
   rw [hcl] at h
   dsimp only at h
@@ -75,15 +75,18 @@ theorem lto_window_shape (cfg : Cfg) (L : Libc) (w : World) (pil : Nat) (start e
     refine ⟨t, heq, ?_⟩
     split at h
     · cases h
+    rename_i hm1
+    split at h
+    · cases h
     · rename_i hmax
       split at h
       · rename_i h4
         split at h
         · cases h
         · rename_i hg; cases h
-          exact ⟨by rw [if_pos h4], rfl, by omega, fun _ => by simpa using hg⟩
+          exact ⟨by rw [if_pos h4], rfl, by omega, fun _ => by simpa using hg, hm1⟩
       · rename_i h4; cases h
-        exact ⟨by rw [if_neg h4]; omega, rfl, by omega, fun h => absurd h h4⟩
+        exact ⟨by rw [if_neg h4]; omega, rfl, by omega, fun h => absurd h h4, hm1⟩
 
 theorem secsFromTm_hm (tm : Tm) (h mi : Int) :
     secsFromTm { tm with hour := h, min := mi, sec := 0 } = secsFromTm { tm with hour := 0, min := 0, sec := 0 } + h * 3600 + mi * 60 := by
